@@ -11,19 +11,21 @@ namespace std {
 template<typename T>
 struct verif_atomic {
 	std::atomic<T> a;
+	mutable vclock::Rel hb;          // release clock attached to the current value (vclock.hpp)
 	verif_atomic() noexcept = default;
 	constexpr verif_atomic(T v) noexcept : a(v) {}
 	verif_atomic(const verif_atomic &) = delete;
 	verif_atomic &operator=(const verif_atomic &) = delete;
-	T load(std::memory_order mo = std::memory_order_seq_cst) const { dsched::point(); return a.load(mo); }
-	void store(T v, std::memory_order mo = std::memory_order_seq_cst) { dsched::point(); a.store(v, mo); }
-	T exchange(T v, std::memory_order mo = std::memory_order_seq_cst) { dsched::point(); return a.exchange(v, mo); }
-	T fetch_add(T v, std::memory_order mo = std::memory_order_seq_cst) { dsched::point(); return a.fetch_add(v, mo); }
-	T fetch_sub(T v, std::memory_order mo = std::memory_order_seq_cst) { dsched::point(); return a.fetch_sub(v, mo); }
-	bool compare_exchange_weak(T &e, T d, std::memory_order s, std::memory_order f) { dsched::point(); return a.compare_exchange_weak(e, d, s, f); }
-	bool compare_exchange_strong(T &e, T d, std::memory_order s, std::memory_order f) { dsched::point(); return a.compare_exchange_strong(e, d, s, f); }
-	bool compare_exchange_weak(T &e, T d, std::memory_order m = std::memory_order_seq_cst) { dsched::point(); return a.compare_exchange_weak(e, d, m); }
-	bool compare_exchange_strong(T &e, T d, std::memory_order m = std::memory_order_seq_cst) { dsched::point(); return a.compare_exchange_strong(e, d, m); }
+	T load(std::memory_order mo = std::memory_order_seq_cst) const { dsched::point(); T v = a.load(mo); hb.on_load(mo); return v; }
+	void store(T v, std::memory_order mo = std::memory_order_seq_cst) { dsched::point(); hb.on_store(mo); a.store(v, mo); }
+	T exchange(T v, std::memory_order mo = std::memory_order_seq_cst) { dsched::point(); hb.on_rmw(mo); return a.exchange(v, mo); }
+	T fetch_add(T v, std::memory_order mo = std::memory_order_seq_cst) { dsched::point(); hb.on_rmw(mo); return a.fetch_add(v, mo); }
+	T fetch_sub(T v, std::memory_order mo = std::memory_order_seq_cst) { dsched::point(); hb.on_rmw(mo); return a.fetch_sub(v, mo); }
+	bool compare_exchange_weak(T &e, T d, std::memory_order s, std::memory_order f) { dsched::point(); bool ok = a.compare_exchange_strong(e, d, s, f); if(ok) hb.on_rmw(s); else hb.on_load(f); return ok; }
+	bool compare_exchange_strong(T &e, T d, std::memory_order s, std::memory_order f) { dsched::point(); bool ok = a.compare_exchange_strong(e, d, s, f); if(ok) hb.on_rmw(s); else hb.on_load(f); return ok; }
+	bool compare_exchange_weak(T &e, T d, std::memory_order m = std::memory_order_seq_cst) { return compare_exchange_weak(e, d, m, fail_order(m)); }
+	bool compare_exchange_strong(T &e, T d, std::memory_order m = std::memory_order_seq_cst) { return compare_exchange_strong(e, d, m, fail_order(m)); }
+	static constexpr std::memory_order fail_order(std::memory_order m) { return m == std::memory_order_acq_rel ? std::memory_order_acquire : m == std::memory_order_release ? std::memory_order_relaxed : m; }
 	operator T() const { return load(); }
 	T operator=(T v) { store(v); return v; }
 };
